@@ -209,7 +209,10 @@ class Ref:
         self.mut = mut
 
     def key(self):
-        return ('Ref', vkey(read_lv(self.lv)))
+        try:
+            return ('Ref', vkey(read_lv(self.lv)))
+        except AnalysisIncomplete:
+            return ('Ref', 'dead', id(self.lv.cell), len(self.lv.path))
 
     def __repr__(self):
         try:
@@ -465,7 +468,7 @@ def _write_path(v, path, new):
         # symbolic index write: the aggregate becomes an opaque update term
         cur = get_index(v, idx, step[2])
         newv = _write_path(cur, path[1:], new)
-        return Sym(nf.app_atom('store', vkey(v), idx, vkey(newv)), getattr(v, 'ty', '?'))
+        return Sym(nf.app_atom('store', frozen(v), idx, frozen(newv)), getattr(v, 'ty', '?'))
     if k == 'd':
         return _write_path(v, path[1:], new)
     raise AnalysisIncomplete('bad lvalue step %r' % (step,))
@@ -496,6 +499,11 @@ class Diverge(Exception):
     pass
 
 
+import re as _re
+# library calls that move/borrow/select values without computing with them
+NONOBSERVING = _re.compile(r'(::clone$|::into$|::from$|::deref(_mut)?$|::index(_mut)?$|::as_ref$|::as_mut$|::as_slice$|::len$|^std::option::Option::|^std::boxed::|::new_uninit$|^std::vec::Vec::<T>::new$|glam::DVec3::new$|glam::DVec3::from_array$|glam::DVec3::to_array$)')
+
+
 class Interp:
     def __init__(self, facts, no_inline=(), max_depth=6, tables=None, opaque_unknown=True):
         self.facts = facts
@@ -509,6 +517,10 @@ class Interp:
         self.fresh = 0
         self.evaluations = 0
         self.unknown_calls = {}
+        self.unroll_limit = 0         # >0: try concrete unrolling of loops with constant trip count first
+        self.unrolling = 0
+        self.track_observed = False   # record which input symbols are consumed by arithmetic / library / opaque calls
+        self.observed = set()
         self.loops = []           # loop records (see run_loop)
         self.closure_runs = []    # per-element closure evaluations of iterator adaptors (tables._adaptor)
         self.assumed = set()      # keys of branch conditions whose other arms all diverge (assertions)
@@ -668,6 +680,10 @@ class Interp:
             for c in cands:
                 if J is None or len(pd[c]) > len(pd[J]):
                     J = c
+        if self.unroll_limit:
+            res = self.try_unroll(st, cfg, header, L, exits, J, stops, active_loops)
+            if res is not None:
+                return res
         pre_vals = [c.v for c in st.cells]
         self.havoc_loop(st, cfg, header, L)
         phi_vals = [c.v for c in st.cells]
@@ -740,6 +756,64 @@ class Interp:
         elif J is not None and atJ:
             out.setdefault(J, []).extend(atJ)
         return out
+
+    def try_unroll(self, st, cfg, header, L, exits, J, stops, active_loops):
+        """Concrete unrolling of a loop whose exit decisions constant-fold (e.g. `for i in 0..3`): iterations are
+        evaluated one after the other on the real abstract state (no havoc).  Gives up (returns None, state restored)
+        as soon as an iteration does not end in exactly one state, or after `unroll_limit` iterations."""
+        save = self.snap(st)
+        g0 = st.guard
+        nev = len(self.events)
+        nret = [len(x) for x in self._returns]
+        inner_stops = frozenset(exits | {header})
+        self.unrolling += 1
+        try:
+            for it in range(self.unroll_limit + 1):
+                r = self.run(st, cfg, header, inner_stops, first=True, active_loops=active_loops + (header,))
+                states = [(k, g, s_) for k, lst in r.items() for g, s_ in lst]
+                if len(states) != 1 or [len(x) for x in self._returns] != nret:
+                    break
+                k, g, s_ = states[0]
+                self.restore(st, s_)
+                st.guard = g0
+                if k == header:
+                    continue
+                if k in exits:
+                    # leave the loop: evaluate from the exit to the continuation like run_loop does
+                    out = {}
+                    if k == J or k in stops:
+                        if k == J and J not in stops:
+                            out['__continue__'] = J
+                        else:
+                            out.setdefault(k, []).append((g0, self.snap(st)))
+                        return out
+                    sub = frozenset(stops | ({J} if J is not None else set()))
+                    r2 = self.run(st, cfg, k, sub, first=False, active_loops=active_loops)
+                    atJ = []
+                    for sk, lst in r2.items():
+                        if sk == J:
+                            atJ.extend(lst)
+                        else:
+                            out.setdefault(sk, []).extend(lst)
+                    st.guard = g0
+                    if J is not None and atJ and J not in stops:
+                        self.restore(st, self.merge_snaps(atJ, len(g0)))
+                        out['__continue__'] = J
+                    elif J is not None and atJ:
+                        out.setdefault(J, []).extend(atJ)
+                    return out
+                break
+        except AnalysisIncomplete:
+            pass
+        finally:
+            self.unrolling -= 1
+        # give up: undo everything
+        self.restore(st, save)
+        st.guard = g0
+        del self.events[nev:]
+        for x, n in zip(self._returns, nret):
+            del x[n:]
+        return None
 
     def havoc_loop(self, st, cfg, header, L):
         """Replace every location that the loop may write by a phi symbol.  A `&mut x` that only
@@ -1180,6 +1254,8 @@ class Interp:
                 return b_or(a, b)
             return b_cmp('!=', a, b)
         base = op.replace('WithOverflow', '').replace('Unchecked', '')
+        if self.track_observed:
+            self.observe((a, b))
         try:
             a2, b2 = as_rf(a), as_rf(b)
         except TypeError:
@@ -1224,6 +1300,15 @@ class Interp:
             return tup(r, FALSE)
         return r
 
+    def observe(self, vals):
+        for v in vals:
+            try:
+                for a in atoms_deep(frozen(v)).values():
+                    if a.kind == 'sym':
+                        self.observed.add(a.name)
+            except TypeError:
+                pass
+
     # ----- calls --------------------------------------------------------------------
     def exec_call(self, st, t):
         args = [self.operand(st, a) for a in t['args']]
@@ -1261,6 +1346,8 @@ class Interp:
         if h is not None:
             r = h(self, st, t, args, ret_ty)
             if r is not NotImplemented:
+                if self.track_observed and not NONOBSERVING.search(callee):
+                    self.observe(args)
                 return r
         # 2. closure invocation
         decl = t.get('callee') or ''
@@ -1306,6 +1393,8 @@ class Interp:
         """Unknown (or deliberately not inlined) function: congruent uninterpreted result;
         `&mut` arguments are havocked — field-wise when the callee is crate-local and has a mod-set."""
         from .effects import modset, ALL
+        if self.track_observed:
+            self.observe(args)
         self.unknown_calls[callee] = self.unknown_calls.get(callee, 0) + 1
         keys = tuple(frozen(a) for a in args)
         cname = strip_generics(callee)
